@@ -180,6 +180,20 @@ fn main() {
             let out = c.formatter().format(&input, pasfmt_core::prelude::FileOptions::new());
             std::io::stdout().write_all(out.as_bytes()).unwrap();
         }
+        "cursors" => {
+            // reference cursor mapping: pasfmt-mc cursors <cfg-json> a,b,c < input  -> "a',b',c'"
+            use std::io::Read;
+            let c: cfg::Cfg = serde_json::from_str(&args[2]).expect("cfg json");
+            let mut cur: Vec<pasfmt_core::prelude::Cursor> = args[3]
+                .split(',')
+                .filter(|s| !s.is_empty())
+                .map(|s| pasfmt_core::prelude::Cursor(s.parse().unwrap()))
+                .collect();
+            let mut input = String::new();
+            std::io::stdin().read_to_string(&mut input).expect("utf-8 stdin");
+            let _ = c.formatter().format(&input, pasfmt_core::prelude::FileOptions::new().with_cursors(&mut cur));
+            println!("{}", cur.iter().map(|c| c.0.to_string()).collect::<Vec<_>>().join(","));
+        }
         "lex" => {
             let text = std::fs::read_to_string(&args[2]).expect("read");
             for t in refscan::scan(&text) {
